@@ -132,4 +132,8 @@ example : Message ({ state := 1 } : Rd) bF0 [exPing, exF1, exF2] ∧ bF0.h.fin =
   refine Tail.cont _ _ ⟨by decide, by decide, by decide, by decide⟩ (by decide) (by decide) ⟨by decide, by decide⟩ ?_
   exact Tail.last _ ⟨by decide, by decide, by decide, by decide⟩ (by decide) (by decide) ⟨by decide, by decide⟩
 
+/- The model run on it (`#eval`, not part of the build: `decide` on it takes minutes): a ping, then "igo" PING "l" "o"
+   in two transport chunks with two bytes of the next frame behind, want = binary:
+     readData 1 2 … = ("hello", 2, none, rest [0x81, 0x85], writes [[0x8a, 2, 'p', 'y'], [0x8a, 2, 'p', 'y']]) -/
+
 end Ws.C08
